@@ -1,7 +1,7 @@
 SPECIFICATION Spec
 CONSTANTS Messages <- MCMessages
-          AsCoded = FALSE
-          Fixed = FALSE
+          AsCoded = TRUE
+          Fixed = TRUE
           Mode = "http"
           MaxMsgs = 1
           HasTimeout = TRUE
@@ -16,7 +16,7 @@ CONSTANTS Messages <- MCMessages
           NotifMethods = {"ret", "blk", "cblk"}
           InvIds = {0, 1}
           WithResp = TRUE
-          MaxBatch = 2
+          MaxBatch = 3
           Ids = {1, 2}
 INVARIANT Invs
 CHECK_DEADLOCK FALSE
